@@ -243,3 +243,39 @@ def _replay(f):
         if lab == label:
             return run_case(fn) is None
     return True
+
+
+def _with_patch(obj, name, replacement, case_fn):
+    real = getattr(obj, name)
+    setattr(obj, name, replacement)
+    try:
+        return run_case(case_fn) is not None
+    finally:
+        setattr(obj, name, real)
+
+
+@harness_canary('C10', 'NOTIFICATION never written')
+def _hc_silent():
+    from exabgp.reactor.protocol import Protocol
+
+    async def nothing(self, notify):
+        return None
+
+    data, exp = faults()['bad marker']
+    return run_case(lambda: one_case('ESTABLISHED', 'bad marker', data, exp['*'])) is None and _with_patch(Protocol, 'new_notification', nothing, lambda: one_case('ESTABLISHED', 'bad marker', data, exp['*']))
+
+
+@harness_canary('C10', 'a received NOTIFICATION is answered')
+def _hc_answer():
+    from exabgp.reactor.peer import Peer
+    from exabgp.bgp.message.notification import Notify, Notification
+
+    real = Peer._main
+
+    async def main(self):
+        try:
+            return await real(self)
+        except Notification:
+            raise Notify(6, 0, 'answering') from None
+
+    return _with_patch(Peer, '_main', main, lambda: received_notification('ESTABLISHED', 6, 2, b''))
